@@ -513,8 +513,8 @@ pub fn observe_all_pub(db: &DbX) -> Value {
     }
 }
 
-fn observe_all(vs: &Variants) -> Value {
-    let mut it = vs.dbs.iter();
+pub fn observe_variants(dbs: &[(Kind, DbX, String)]) -> Value {
+    let mut it = dbs.iter();
     let (_, first, _) = it.next().unwrap();
     let o = match guarded(|| observe(first)) {
         Ok(Ok(o)) => o,
@@ -531,6 +531,10 @@ fn observe_all(vs: &Variants) -> Value {
         });
     }
     merge(o, json!({"digest": d, "others": others}))
+}
+
+fn observe_all(vs: &Variants) -> Value {
+    observe_variants(&vs.dbs)
 }
 
 fn maintain(rng: &mut Rng, vs: &mut Variants, work: &str, run: u64, gen_no: &mut u64) -> Value {
